@@ -543,7 +543,7 @@ impl System for Sys {
             .reg
             .nodes
             .iter()
-            .map(|n| format!("{}|{:?}|pid={:?}|port={:?}|rpc={}|v={}|live={:?}|inst={}", n.service_name, n.status, n.pid, n.node_port, n.rpc_socket_addr.port(), n.version, g.processes.get(&n.antnode_path), g.installed.contains_key(&n.service_name)))
+            .map(|n| format!("{}|{:?}|pid={:?}|port={:?}|rpc={}|v={}|live={:?}|inst={}|dirs={}{}", n.service_name, n.status, n.pid, n.node_port, n.rpc_socket_addr.port(), n.version, g.processes.get(&n.antnode_path), g.installed.contains_key(&n.service_name), n.data_dir_path.exists() as u8, n.antnode_path.exists() as u8))
             .collect();
         format!("{nodes:?}|faults={}|removed={:?}|left={:?}|died={:?}|nextpid={}", self.faults_used, self.removed_once, self.left_behind, self.died_unseen, g.next_pid).into_bytes()
     }
